@@ -395,6 +395,9 @@ func (e *Environment) SetNoChecks(name string, val Object, create bool) Object {
 		// writing an outer binding (even a function valued one) is a side effect: not cacheable.
 		e.getMiss++
 		ref.RefEnv.store[ref.Name] = Value(val) // kinda neat to make aliases but it can create loops, so not for now.
+		if ref.RefEnv.depth == 0 {
+			ref.RefEnv.numSet++ // a global changed: auto-save must not skip it.
+		}
 		return val
 	}
 	log.Debugf("SetNoChecks(%s) brand new to %d and above", name, e.depth)
